@@ -251,8 +251,10 @@ func (s *system) build(o op, nowNs int64) ([]rtcp.Packet, []func(m *model)) {
 			if in {
 				ntp = toNTP(nowNs - 37_000_123) // the remote sender's clock
 				nSR++
-				sr.PacketCount = uint32(10 + 7*nSR + int64(x))
-				sr.OctetCount = uint32(1000 + 13*nSR)
+				// the sender's 32-bit counters wrap between its first and its second report (RFC 3550 6.4.1:
+				// about 4 GiB sent): the most recent report is the one with the smaller figures
+				sr.PacketCount = uint32(0xFFFFFFF8 + 7*nSR + int64(x))
+				sr.OctetCount = uint32(0xFFFFFFF0 + 13*nSR)
 			} else {
 				sr.PacketCount, sr.OctetCount = 5, 500
 			}
